@@ -6,3 +6,5 @@ export CARGO_NET_OFFLINE=true
 cargo build --offline --manifest-path harness/Cargo.toml --target-dir target
 cargo build --offline --release --manifest-path harness/Cargo.toml --target-dir target
 mkdir -p evidence replays .scratch
+# Miri harness (thorough tier of C13/C14/C16/C17): warm the build so the first thorough run does not pay for it
+(cd miri_harness && MIRIFLAGS="-Zmiri-disable-isolation" cargo +nightly miri run --offline -- C14 >/dev/null 2>&1) || echo "note: miri warm-up failed (thorough tier will report it)"
